@@ -224,6 +224,9 @@ fn generate_table(seed: u64, emit: &mut dyn FnMut(String)) {
 	let logicals: Vec<Option<Logical>> = vec![
 		None,
 		Some(Logical::Decimal(1, 10)),
+		// scale 0: the integer entry points answer with the integer itself (zero, negative and
+		// positive take different visitor calls)
+		Some(Logical::Decimal(0, 10)),
 		Some(Logical::Uuid),
 		Some(Logical::Date),
 		Some(Logical::TimeMillis),
@@ -286,7 +289,7 @@ fn generate_table(seed: u64, emit: &mut dyn FnMut(String)) {
 			];
 			let mut datum = vec![];
 			DatumGen { rng: &mut rng, schema: &schema, fancy_layout: true, nonminimal: 0.0 }.gen(0, 0, &mut datum);
-			let mut patterns: Vec<Vec<u8>> = vec![datum.clone(), vec![], vec![0], vec![2, 0x41, 0], vec![0x18; 14]];
+			let mut patterns: Vec<Vec<u8>> = vec![datum.clone(), vec![], vec![0], vec![2, 0x41, 0], vec![0x18; 14], vec![2, 0], vec![2, 0xff], vec![0, 0, 0, 0, 0, 0, 0, 0, 0, 0, 0, 0], vec![0xff; 12]];
 			if !datum.is_empty() {
 				patterns.push(datum[..datum.len() - 1].to_vec());
 			}
